@@ -52,6 +52,7 @@ fn main() {
     let rep = match sub.as_str() {
         "c15-names" => c15::names(&ctx),
         "c16-shrink" => c16::shrink(&ctx),
+        "c16-e2e" => c16::e2e(&ctx),
         other => {
             eprintln!("unknown sub-command {other}");
             std::process::exit(2);
